@@ -1170,6 +1170,25 @@ def Encoder_EncodeBytes.body (fuel : Nat) : Encoder_EncodeBytes.St → Go.Out En
 def Encoder_EncodeBytes (fuel : Nat) (e_p : Bytes) (e_offset : BitVec 64) (tag : BitVec 64) (v : Bytes) : Go.Out Encoder_EncodeBytes.St Encoder_EncodeBytes.R :=
   Encoder_EncodeBytes.body fuel { e_p := e_p, e_offset := e_offset, tag := tag, v := v }
 
+/-! ### `Encoder.EncodeMapEntryHeader` (/repo/encoder.go:377:1) -/
+
+structure Encoder_EncodeMapEntryHeader.St where
+  e_p : Bytes
+  e_offset : BitVec 64
+  tag : BitVec 64
+  size : BitVec 64
+
+abbrev Encoder_EncodeMapEntryHeader.R := Unit
+
+/-- the body of `Encoder_EncodeMapEntryHeader`, statement by statement -/
+def Encoder_EncodeMapEntryHeader.body (fuel : Nat) : Encoder_EncodeMapEntryHeader.St → Go.Out Encoder_EncodeMapEntryHeader.St Encoder_EncodeMapEntryHeader.R :=
+  (Go.seq (Go.seq (fun s => if ((s.e_offset).toNat ≤ s.e_p.length) then match (EncodeTag fuel (s.e_p.drop (s.e_offset).toNat) s.tag 2#64) with | .ret r c => .next { s with e_p := s.e_p.take (s.e_offset).toNat ++ c.dest, e_offset := (s.e_offset + r) } | .next _ => .panic | .panic => .panic | .diverge => .diverge else .panic)
+    (fun s => if ((s.e_offset).toNat ≤ s.e_p.length) then match (EncodeVarint fuel (s.e_p.drop (s.e_offset).toNat) s.size) with | .ret r c => .next { s with e_p := s.e_p.take (s.e_offset).toNat ++ c.dest, e_offset := (s.e_offset + r) } | .next _ => .panic | .panic => .panic | .diverge => .diverge else .panic))
+    (fun s => .ret () s))
+
+def Encoder_EncodeMapEntryHeader (fuel : Nat) (e_p : Bytes) (e_offset : BitVec 64) (tag : BitVec 64) (size : BitVec 64) : Go.Out Encoder_EncodeMapEntryHeader.St Encoder_EncodeMapEntryHeader.R :=
+  Encoder_EncodeMapEntryHeader.body fuel { e_p := e_p, e_offset := e_offset, tag := tag, size := size }
+
 /-! ### `Encoder.EncodePackedBool` (/repo/encoder.go:117:1) -/
 
 structure Encoder_EncodePackedBool.St where
